@@ -67,13 +67,21 @@ Example C12_wf_witness :
   fn (sem false g) [97; 120; 121; 63] = true /\ fn (sem false g) [97; 99; 63] = false /\ fn (sem false g) [97; 88; 63] = false.
 Proof. vm_compute. repeat split. Qed.
 
+(* "]" first and "-" last (or first) are members: []a-] , [!]] , [-] , [a-] are within the theorem *)
+Example C12_wf_rb_minus :
+  let g := [GBr false [BChar 93; BChar 97; BChar 45]; GBr true [BChar 93]; GBr false [BChar 45]; GBr false [BRange 97 99; BChar 45]] in
+  forallb wf_item g = true /\
+  show g = [91; 93; 97; 45; 93;  91; 33; 93; 93;  91; 45; 93;  91; 97; 45; 99; 45; 93] /\
+  fn (sem false g) [93; 120; 45; 45] = true /\ fn (sem false g) [97; 93; 45; 98] = false /\ fn (sem false g) [45; 97; 45; 98] = true.
+Proof. vm_compute. repeat split. Qed.
+
 (* a leading ^ negates exactly as ! does (POSIX leaves it unspecified; every fnmatch in use reads it so), also before "]" *)
 Theorem C12_caret_negates : forall s, extract_bracket (ch_caret :: s) = extract_bracket (ch_bang :: s).
 Proof. reflexivity. Qed.
 Print Assumptions C12_caret_negates.
 
-(* outside the well-formed fragment (a "]" or "-" as a list member, an unclosed bracket in the middle, collating
-   symbols): the executable model is validated against the implementation and against glibc fnmatch on every run *)
+(* outside the well-formed fragment ("]" or "-" as a member elsewhere than first / last, an unclosed bracket in the middle,
+   collating symbols): the executable model is validated against the implementation and against glibc fnmatch on every run *)
 Example C12_witness :
   (* "a[!b-d]*\\?" on "axyz?" and on "ac?" ; "[[:digit:]]" ; stray "[" ; trailing backslash ; -iname *)
   glob_match false [97; 91; 33; 98; 45; 100; 93; 42; 92; 63] [97; 120; 121; 122; 63] = 1 /\
